@@ -289,6 +289,9 @@ func (ex *Exec) runPath(harness *ssa.Function, j *job) (res *PathResult) {
 			case *goPanic:
 				// a Go panic escaped the harness: that is a violation
 				ex.reportViolation("panic: "+x.Msg, "escaped Go panic in "+x.Where, nil)
+			case *hangAbort:
+				// the call under test never returns: a violation once a native hang confirms it
+				ex.reportViolation("hang: "+x.Msg, "in "+x.Where, nil)
 			case *InternalError:
 				res.Status, res.Msg = "internal", x.Msg+" (harness "+harness.Name()+")"
 			default:
